@@ -208,6 +208,29 @@ type pipe struct {
 	acts    []string // Gallina ract terms
 	sample  []string
 	failed  string
+
+	owned      bool // class owned: every emitted key must belong to the emitting input (H_owned instance)
+	hypOwned   int  // validated instances of H_owned (one per emitted object)
+	hypNoZero  int
+	hypBroken  string
+	secRecomp  int // inputs (other than gate/barrier) recomputed in answer to a secondary change
+	movedKeys  int
+	producerOf map[int]int
+}
+
+// ownerOf is the static ownership function of the owned class (Coq: owner)
+func ownerOf(k int) int {
+	switch {
+	case k >= 200:
+		return (k - 200) / 100
+	case k >= 120:
+		return k - 120
+	case k >= 110:
+		return k - 110
+	case k >= 91 && k <= 93:
+		return barKey
+	}
+	return k - 50
 }
 
 func nsName(n int) string { return "n" + strconv.Itoa(n) }
@@ -281,12 +304,32 @@ func (p *pipe) transform(ctx krt.HandlerContext, i IObj) []OObj {
 			}
 		}
 	}
+	p.mu.Lock()
+	for _, o := range out {
+		if o.Key != 0 {
+			p.hypNoZero++
+		} else {
+			p.hypBroken = "a transformation emitted key 0"
+		}
+		if p.owned {
+			if ownerOf(o.Key) == i.Key {
+				p.hypOwned++
+			} else {
+				p.hypBroken = fmt.Sprintf("generator bug: input %d emitted key %d owned by %d", i.Key, o.Key, ownerOf(o.Key))
+			}
+		}
+		if prev, ok := p.producerOf[o.Key]; ok && prev != i.Key {
+			p.movedKeys++
+		}
+		p.producerOf[o.Key] = i.Key
+	}
+	p.mu.Unlock()
 	return out
 }
 
 func newPipe(progs map[int]Prog) *pipe {
 	p := &pipe{stop: make(chan struct{}), progs: progs, entered: make(chan struct{}), release: make(chan struct{}),
-		pcur: map[int]int{}, scur: [2]map[int]SObj{{}, {}}}
+		pcur: map[int]int{}, scur: [2]map[int]SObj{{}, {}}, producerOf: map[int]int{}}
 	opts := krt.NewOptionsBuilder(p.stop, "c16", nil)
 	for c := 0; c < 2; c++ {
 		p.S[c] = krt.NewStaticCollection[SObj](nil, nil, opts.WithName("S"+strconv.Itoa(c))...)
@@ -653,6 +696,13 @@ func (p *pipe) groupWith(src int, ops []op) bool {
 		}
 	}
 	tr := p.takeTrace()
+	if src > 0 {
+		for _, k := range tr {
+			if k != gateKey && k != barKey {
+				p.secRecomp++
+			}
+		}
+	}
 	acts := append([]string{}, p.acts[:mark]...)
 	acts = append(acts, vlib.App("RTrace", vlib.ListOf(tr, vlib.NI)))
 	acts = append(acts, p.acts[mark:]...)
@@ -677,6 +727,18 @@ func finish(c *vlib.Collector, id int, p *pipe, tg tags, trivial bool) {
 	close(p.stop)
 	if p.failed != "" {
 		c.Violate(vlib.Violation{ID: id, Kind: "quiescence", Detail: p.failed, Case: p.sample})
+	}
+	if p.hypBroken != "" {
+		c.Violate(vlib.Violation{ID: id, Kind: "hypothesis", Detail: p.hypBroken, Case: p.sample})
+	}
+	c.Hyp("H_owned (emitted key belongs to the emitting input; owned class)", p.hypOwned)
+	c.Hyp("H_nozero (no emitted key is the zero object's key)", p.hypNoZero)
+	trivial = p.secRecomp == 0 && p.movedKeys == 0
+	if p.secRecomp > 0 {
+		tg["secondary-change-recomputed-inputs"] = true
+	}
+	if p.movedKeys > 0 {
+		tg["key-changed-producer"] = true
 	}
 	var ts []string
 	for t := range tg {
@@ -717,13 +779,13 @@ func TestGen(t *testing.T) {
 		"groups of 1-4 mutations on one source, each followed by a barrier and a full observation (List, GetKey, Index.Lookup, filtered " +
 		"fetch, per-handler events). classes: owned (programs emit only keys of their own input; property must hold), moving (K5: one key " +
 		"handed from input to input by an owner object or inside one Reset batch), chaos (overlapping keys; model only). non-trivial = the " +
-		"history contains a secondary change that the real code answered by recomputing at least one input."
+		"history contains a secondary change that the real code answered by recomputing at least one input, or a key that changed its producing input."
 	seed := vlib.Seed()
 	root := vlib.NewRand(seed*1000003 + 16)
 	id := 0
 
 	// ---- class A: owned histories
-	nOwned := vlib.Scale(70, 1500)
+	nOwned := vlib.Scale(100, 1500)
 	for n := 0; n < nOwned; n++ {
 		r := root.Sub()
 		id++
@@ -741,6 +803,7 @@ func TestGen(t *testing.T) {
 		tg := tags{"class-owned": true}
 		progTags(progs, tg)
 		p := newPipe(progs)
+		p.owned = true
 		if p.setup() {
 			genRandom(r, p, pool, tg, 6+r.Intn(6))
 		}
